@@ -426,7 +426,7 @@ class C07(Prop):
     def extra_checks(self, ctx):
         quick = ctx["tier"] == "quick"
         # >= 10^5 samples per round against a few tens of drains (spaced by a pause), so that the bound below discriminates
-        per, rounds, gap = (50000, 3, 50) if quick else (150000, 6, 1000)
+        per, rounds, gap = (50000, 3, 300) if quick else (150000, 6, 1000)
         threads = 4
         lines = ["T %d %d 3 1 %d %d" % (threads, per, rounds, gap), "T %d %d 3 0 %d %d" % (threads, per, rounds, gap), "T %d %d 1 1 %d %d" % (threads, per, rounds, gap)]
         rc, outs, err = run_impl(ctx["binpath"], lines, timeout=900)
